@@ -8,6 +8,8 @@ import Operon.Model.Genome
   new <allow> <cb|none> <rate> <gene>*      gene = name:value:type:required:defaultExpression
   add <id> <gene> · mutate <id> <name> <val> · rollback <id> <name> · expr <id> <name> <lvl> ·
   silence <id> <name> · activate <id> <name> · replicate <id> <inherit> <n:v,…|-> · express <id> <none|-|n,n,…> ·
+  setallow <id> <0|1> · setcb <id> <cb|none> · setrate <id> <0|1>   (assignment to the public attributes
+  allow_mutations / on_mutation / mutation_rate of a live genome) ·
   getv <id> <name> · validate <id> · list <id> · diff <id> <id> · fromdict <allow> <cb|none> <rate> <n:v,…|->
   Every output line: the observation, then the full state of every genome (genes and expression sorted by
   name, log in order, hash class, parent-hash class).  Hash classes number the distinct canonical lists in
@@ -140,6 +142,7 @@ def showObs : Obs Nat → String
   | .listing l => "list " ++ showList ((l.mergeSort (fun a b => a.1 ≤ b.1)).map fun (n, v, t, lv, r) =>
       let ls := match lv with | some x => showLevel x | none => "?"
       s!"{n}={v}:{showGType t}:{ls}:{showBool r}")
+  | .assigned => "ok"
   | .diffs d => "diff " ++ showList ((d.mergeSort (fun a b => a.1 ≤ b.1)).map fun (n, a, b) =>
       let sh := fun (o : Option Nat) => match o with | some x => toString x | none => "none"
       s!"{n}:{sh a}/{sh b}")
@@ -168,6 +171,10 @@ def tagOf (st : DSt) (op : Op Nat) (o : Obs Nat) : String :=
   | .listGenes _, .listing _ => "list"
   | .diff .., .diffs [] => "diff:empty"
   | .diff .., .diffs _ => "diff:some"
+  | .assign _ (.allow b), .assigned => s!"assign:allow:{showBool b}"
+  | .assign _ (.cb none), .assigned => "assign:cb:none"
+  | .assign _ (.cb (some _)), .assigned => "assign:cb:some"
+  | .assign _ (.rate b), .assigned => s!"assign:rate:{showBool b}"
   | _, .bad => "badid"
   | _, _ => "other"
 
@@ -242,6 +249,22 @@ def dstep (st : DSt) (toks : List String) : DSt × String :=
       if cb = "none" then exec st (.new (boolOf allow) none (boolOf rate) gs)
       else match cb.toNat? with
         | some c => exec st (.new (boolOf allow) (some c) (boolOf rate) gs)
+        | none => (st, "bad-op")
+    | none => (st, "bad-op")
+  | ["setallow", i, b] =>
+    match i.toNat? with
+    | some i => if b = "0" || b = "1" then exec st (.assign i (.allow (boolOf b))) else (st, "bad-op")
+    | none => (st, "bad-op")
+  | ["setrate", i, b] =>
+    match i.toNat? with
+    | some i => if b = "0" || b = "1" then exec st (.assign i (.rate (boolOf b))) else (st, "bad-op")
+    | none => (st, "bad-op")
+  | ["setcb", i, c] =>
+    match i.toNat? with
+    | some i =>
+      if c = "none" then exec st (.assign i (.cb none))
+      else match c.toNat? with
+        | some c => exec st (.assign i (.cb (some c)))
         | none => (st, "bad-op")
     | none => (st, "bad-op")
   | ["getv", i, n] =>
